@@ -98,9 +98,11 @@ Qed.
 
 (* ------------------------------------------------------------------ the server root *)
 Definition root_str (root : list (list Z)) : list Z := match root with [] => [] | a :: r => posix_join a r end.
-(* the root directory is given as an absolute path: "/" followed by something that is not a slash *)
-Definition root_ok (root : list (list Z)) : Prop :=
-  root <> [] /\ exists c rest, root_str root = SEP :: c :: rest /\ c <> SEP.
+(* the root directory is given either as an absolute path ("/" followed by something that is not a slash) or as a relative
+   path (anything that does not start with a slash: ".", "sub", "./sub/" — the CLI default is ".") *)
+Definition root_abs (root : list (list Z)) : Prop := exists c rest, root_str root = SEP :: c :: rest /\ c <> SEP.
+Definition root_rel (root : list (list Z)) : Prop := startswith_sep (root_str root) = false.
+Definition root_ok (root : list (list Z)) : Prop := root <> [] /\ (root_abs root \/ root_rel root).
 
 Lemma load_parts_joinpath root comps : root <> [] ->
   load_parts (joinpath root comps) = parse_path (posix_join (root_str root) comps).
@@ -111,6 +113,18 @@ Proof. intros H. destruct root; [contradiction|reflexivity]. Qed.
 
 Lemma anchor_abs c rest suf : c <> SEP -> anchor (parse_path ((SEP :: c :: rest) ++ suf)) = 1.
 Proof. intros H. unfold parse_path. cbn [app str_empty splitroot]. rewrite Z.eqb_refl. replace (c =? SEP) with false by lia. reflexivity. Qed.
+
+(* joining slash-free segments onto a relative path keeps it relative *)
+Lemma posix_join_relative comps : Forall noslash comps -> forall path,
+  startswith_sep path = false -> startswith_sep (posix_join path comps) = false.
+Proof.
+  induction 1 as [|b r Hb Hr IH]; intros path Hp; cbn [posix_join]; [exact Hp|].
+  rewrite (noslash_startswith b Hb). destruct (str_empty path) eqn:Ee; cbn [orb].
+  - destruct path; [|discriminate]. apply IH. cbn [app]. apply noslash_startswith. exact Hb.
+  - destruct path as [|c p]; [discriminate|]. destruct (endswith_sep (c :: p)); apply IH; exact Hp.
+Qed.
+Lemma anchor_rel s : startswith_sep s = false -> anchor (parse_path s) = 0.
+Proof. intros H. unfold parse_path. destruct s as [|c r]; [reflexivity|]. cbn [str_empty splitroot]. cbn in H. rewrite H. reflexivity. Qed.
 
 (* ------------------------------------------------------------------ confinement *)
 Lemma strip_prefix_app pre rest : strip_prefix pre (pre ++ rest) = Some rest.
@@ -147,20 +161,19 @@ Proof. intros H1 H2 H3. repeat split; [apply str_contains_sep_false; exact H1|ap
 (* the joined path of checked components *)
 Lemma joined_ok root comps : root_ok root -> Forall comp_ok comps ->
   load_parts (joinpath root comps) =
-    {| anchor := 1; parts := parts (load_parts root) ++ filter nonempty comps |}
-  /\ anchor (load_parts root) = 1.
+    {| anchor := anchor (load_parts root); parts := parts (load_parts root) ++ filter nonempty comps |}.
 Proof.
-  intros [Hne [c [rest [Hr Hc]]]] Hok.
+  intros [Hne Hkind] Hok.
   assert (Forall noslash comps) as Hns by (eapply Forall_impl; [|exact Hok]; intros a [Ha _]; exact Ha).
   rewrite load_parts_joinpath, load_parts_root by assumption.
-  split.
-  - destruct (posix_join_prefix comps Hns (root_str root)) as [suf Hs].
-    assert (anchor (parse_path (posix_join (root_str root) comps)) = 1) as Ha
-      by (rewrite Hs, Hr; apply anchor_abs; assumption).
-    assert (parts (parse_path (posix_join (root_str root) comps)) = parts (parse_path (root_str root)) ++ filter nonempty comps) as Hp
-      by (rewrite !parse_path_parts, tail_posix_join, filter_keep_ok by assumption; reflexivity).
-    destruct (parse_path (posix_join (root_str root) comps)) as [a p]. cbn in Ha, Hp. subst. reflexivity.
-  - rewrite Hr. rewrite <- (app_nil_r (SEP :: c :: rest)). apply anchor_abs. assumption.
+  assert (parts (parse_path (posix_join (root_str root) comps)) = parts (parse_path (root_str root)) ++ filter nonempty comps) as Hp
+    by (rewrite !parse_path_parts, tail_posix_join, filter_keep_ok by assumption; reflexivity).
+  assert (anchor (parse_path (posix_join (root_str root) comps)) = anchor (parse_path (root_str root))) as Ha.
+  { destruct Hkind as [[c [rest [Hr Hc]]]|Hrel].
+    - destruct (posix_join_prefix comps Hns (root_str root)) as [suf Hs]. rewrite Hs, Hr.
+      rewrite (anchor_abs c rest suf Hc). rewrite <- (app_nil_r (SEP :: c :: rest)). symmetry. apply anchor_abs. exact Hc.
+    - rewrite (anchor_rel _ Hrel). apply anchor_rel. apply posix_join_relative; assumption. }
+  destruct (parse_path (posix_join (root_str root) comps)) as [a p]. cbn in Ha, Hp. subst. reflexivity.
 Qed.
 
 Lemma request_to_localpath_ok self req p : root_ok (fs_root self) ->
@@ -176,13 +189,19 @@ Qed.
 (* THE kernel theorem: an accepted request designates root's parts followed by the non-empty Uri-Path components *)
 Theorem request_to_localpath_confined self req p : root_ok (fs_root self) ->
   request_to_localpath self req = Ok p ->
-  load_parts p = {| anchor := 1; parts := parts (load_parts (fs_root self)) ++ filter nonempty (opt_uri_path req) |}
+  load_parts p = {| anchor := anchor (load_parts (fs_root self));
+                    parts := parts (load_parts (fs_root self)) ++ filter nonempty (opt_uri_path req) |}
   /\ under (load_parts (fs_root self)) (load_parts p) = true.
 Proof.
   intros Hroot H. destruct (request_to_localpath_ok _ _ _ Hroot H) as [Hok ->].
-  destruct (joined_ok _ _ Hroot Hok) as [Hj Ha]. split; [exact Hj|].
-  rewrite Hj. unfold under. cbn [anchor parts]. rewrite Ha, strip_prefix_app, (no_dotdot_ok _ Hok). reflexivity.
+  pose proof (joined_ok _ _ Hroot Hok) as Hj. split; [exact Hj|].
+  rewrite Hj. unfold under. cbn [anchor parts]. rewrite Z.eqb_refl, strip_prefix_app, (no_dotdot_ok _ Hok). reflexivity.
 Qed.
+(* the anchor of the root: 1 for an absolute root, 0 (relative: never an absolute path, whatever the components) otherwise *)
+Lemma root_anchor root : root <> [] -> (root_abs root -> anchor (load_parts root) = 1) /\ (root_rel root -> anchor (load_parts root) = 0).
+Proof. intros Hne. rewrite load_parts_root by exact Hne. split.
+  - intros [c [rest [Hr Hc]]]. rewrite Hr, <- (app_nil_r (SEP :: c :: rest)). apply anchor_abs. exact Hc.
+  - intros H. apply anchor_rel. exact H. Qed.
 
 (* it never fails in any other way, and rejects exactly the hostile components *)
 Theorem request_to_localpath_total self req :
